@@ -21,7 +21,9 @@ import json
 import multiprocessing
 import os
 import random
+import signal
 import sys
+import threading
 import time
 import traceback
 from typing import Any, Callable, Iterable, Optional
@@ -127,6 +129,15 @@ class HarnessError(Exception):
     pass
 
 
+class CaseTimeout(KeyboardInterrupt):
+    """ one generated case ran longer than VERIF_CASE_TIMEOUT seconds: the run is inconclusive (exit 2), the case is
+        written to out/slow/ so that it can be looked at. Derived from KeyboardInterrupt so that hypothesis lets it
+        through instead of shrinking towards it """
+
+
+CASE_TIMEOUT = int(os.environ.get("VERIF_CASE_TIMEOUT", "600"))
+
+
 class Context:
     def __init__(self, module: Any, tier: str, seed: int, known: list[dict]) -> None:
         self.module = module
@@ -162,6 +173,16 @@ class Context:
         def runner(spec: Any) -> None:
             stats.evaluations += 1
             info: dict = {}
+            def too_slow(_signum, _frame) -> None:
+                os.makedirs(os.path.join(OUT_DIR, "slow"), exist_ok=True)
+                path = os.path.join(OUT_DIR, "slow", f"{self.property_id}-{sub}-{digest(spec)}.json")
+                with open(path, "w", encoding="utf-8") as handle:
+                    json.dump({"property": self.property_id, "sub": sub, "spec": spec}, handle, indent=1, sort_keys=True)
+                raise CaseTimeout(f"{self.property_id}/{sub}: one case ran for more than {CASE_TIMEOUT}s, see {path}")
+            watched = threading.current_thread() is threading.main_thread()
+            if watched:
+                previous = signal.signal(signal.SIGALRM, too_slow)
+                signal.alarm(CASE_TIMEOUT)
             try:
                 result = body(spec)
                 if isinstance(result, dict):
@@ -174,6 +195,10 @@ class Context:
                 last_failure["spec"] = spec
                 last_failure["vio"] = vio
                 raise
+            finally:
+                if watched:
+                    signal.alarm(0)
+                    signal.signal(signal.SIGALRM, previous)
             is_nt = bool(info.get("nontrivial")) if nontrivial is None else bool(nontrivial(spec))
             for cls in (info.get("classes") or ()):
                 stats.classes[cls] += 1
